@@ -130,6 +130,7 @@ func importSnapshotToDatastoreWithTestingPowerTableFrequency(ctx context.Context
 	}
 	var latestCert *certs.FinalityCertificate
 	ptm := certs.PowerTableArrayToMap(header.InitialPowerTable)
+	var lastPowerTableCid cid.Cid // CID of ptm, once verified against a certificate
 	for i := header.FirstInstance; ; i += 1 {
 		certBytes, err := readSnapshotBlockBytes(snapshot)
 		if err == io.EOF {
@@ -159,6 +160,19 @@ func importSnapshotToDatastoreWithTestingPowerTableFrequency(ctx context.Context
 		if ptm, err = certs.ApplyPowerTableDiffsToMap(ptm, cert.PowerTableDelta); err != nil {
 			return err
 		}
+
+		// Every certificate commits to the power table obtained by applying its delta. Check it
+		// for each certificate (as Store.Put does), not only at checkpoints and at the end: a
+		// later delta could otherwise compensate for an earlier wrong one. The table only has to
+		// be re-hashed when the delta changes it.
+		if len(cert.PowerTableDelta) > 0 || !lastPowerTableCid.Defined() {
+			if err = checkPowerTable(certs.PowerTableMapToArray(ptm), cert.SupplementalData.PowerTable); err != nil {
+				return err
+			}
+		} else if cert.SupplementalData.PowerTable != lastPowerTableCid {
+			return fmt.Errorf("new power table differs from expected power table: %s != %s", lastPowerTableCid, cert.SupplementalData.PowerTable)
+		}
+		lastPowerTableCid = cert.SupplementalData.PowerTable
 
 		if (cert.GPBFTInstance+1)%cs.powerTableFrequency == 0 {
 			pt := certs.PowerTableMapToArray(ptm)
